@@ -579,6 +579,33 @@ def helper_sequences():
     return seqs
 
 
+def compositions(k):
+    """all ways to cut k samples into >= 2 consecutive non-empty chains"""
+    out = []
+    for cuts in range(1, k):
+        for c in itertools.combinations(range(1, k), cuts):
+            b = (0,) + c + (k,)
+            out.append([b[i + 1] - b[i] for i in range(len(b) - 1)])
+    return out
+
+
+def helper_chain_sequences():
+    """(seq, chains, how): every complete holder of helper_sequences() with >= 2 samples, assembled from per-chain holders
+    for every composition of its length (concat), and by repeated combine for the most unequal compositions"""
+    out = []
+    for seq, declared in helper_sequences():
+        k = len(seq)
+        if declared != k or k < 2:
+            continue
+        comps = compositions(k)
+        for ch in comps:
+            out.append((seq, ch, "concat"))
+        for ch in (comps[0], comps[k - 2]):  # [1, k-1] and [k-1, 1]
+            if (seq, ch, "combine") not in out:
+                out.append((seq, ch, "combine"))
+    return out
+
+
 def helper_screens(ctx):
     n = len(full_rows(ctx.ns, ctx.nt))
     return [
@@ -590,18 +617,39 @@ def helper_screens(ctx):
     ]
 
 
-def check_helper(ctx, typ, D, seq, declared, so, col, snap_screen=True):
+def check_helper(ctx, typ, D, seq, declared, so, col, snap_screen=True, chains=None, how="concat"):
     case = {"u": [ctx.ns, ctx.nt], "helper": {"type": typ, "D": D, "seq": seq, "declared": declared}, "screen": so.spec}
     tag = f"{typ} D={D} holder {seq} (declared {declared}) on {so.spec}"
+    if chains:
+        case["helper"].update({"chains": chains, "how": how})
+        tag = f"{typ} D={D} holder {seq} put together by {how} from complete per-chain holders of lengths {chains} on {so.spec}"
 
     def bad(check, method, msg):
         col.violation(f"C09|{typ}|{check}|{method}", f"{tag}: {msg}", case)
 
     # distinct objects per position (a holder may contain equal samples)
     ths = [Th([typ, D, pat], ctx.ns, ctx.nt) for pat in seq]
-    holder = ThetaHolder(n_thetas=declared)
-    for t in ths:
-        holder.add_theta(t.obj)
+    if chains:
+        # the holder a user gets from per-chain collections: ThetaHolder.concat / combine of complete chains of the given
+        # lengths (chain-major order = seq order); it is judged exactly like the holder filled by add_theta
+        parts, pos = [], 0
+        for n_c in chains:
+            part = ThetaHolder(n_thetas=n_c)
+            for t in ths[pos:pos + n_c]:
+                part.add_theta(t.obj)
+            parts.append(part)
+            pos += n_c
+        if how == "concat":
+            holder = ThetaHolder.concat(parts)
+        else:
+            holder = parts[0]
+            for part in parts[1:]:
+                holder = holder.combine(part)
+        col.transitions += len(parts) - 1
+    else:
+        holder = ThetaHolder(n_thetas=declared)
+        for t in ths:
+            holder.add_theta(t.obj)
     if typ == INT and so.arity != 2:
         col.refused += 1
         col.outcome(typ, "helper-refused-arity")
@@ -628,12 +676,12 @@ def check_helper(ctx, typ, D, seq, declared, so, col, snap_screen=True):
         try:
             out = fn(screen=so.obj, thetas=holder)
         except Exception as exc:  # noqa: BLE001
-            if declared != k:
+            if declared != k and not chains:
                 col.refused += 1  # incomplete collection: the statement demands no result
                 col.outcome(typ, "helper-refused", name)
                 continue
             raise
-        if declared != k:
+        if declared != k and not chains:
             col.outcome(typ, "helper-incomplete-returned", name)
             # a holder that is not full may be refused; if the helper answers it answers for the samples HELD: one row per
             # sample (or their mean), never a row for a sample that is not there
@@ -658,7 +706,7 @@ def check_helper(ctx, typ, D, seq, declared, so, col, snap_screen=True):
                                         f"sample at that position of the holder")
         col.outcome(typ, D, seq, name, so.spec, np.round(np.asarray(out, dtype=float), 9).tobytes())
         if k >= 2:
-            col.nontriv("helper", typ, D, seq, name, so.kind)
+            col.nontriv("helper", typ, D, seq, name, so.kind, tuple(chains or ()), how if chains else "")
         # history: the caller scribbles on the array it was given and asks again with the same screen / holder objects;
         # the second answer is judged like the first (a result kept between calls would hand the scribbled array back)
         if isinstance(out, np.ndarray) and out.size and out.flags.writeable:
@@ -787,6 +835,8 @@ def run_item(item, col, tier):
                 raise
             for seq, declared in helper_sequences():
                 check_helper(ctx, item["type"], item["D"], seq, declared, so, col)
+            for seq, chains, how in helper_chain_sequences():
+                check_helper(ctx, item["type"], item["D"], seq, len(seq), so, col, chains=chains, how=how)
         # sparse probe far above the enumerated sizes: 4096 rows x 20 and x 16 posterior samples, 3000 rows x 50 (any
         # workload-dependent path of the helpers - blocking, chunked averaging - is taken at least once)
         names = [["gradedA"], ["gradedB"], ["zero"]]
@@ -839,7 +889,7 @@ def replay(case, col):
     print(f"rows (sample id, treatment ids; -1 = control): {so.rows}")
     if "helper" in case:
         h = case["helper"]
-        check_helper(ctx, h["type"], h["D"], h["seq"], h["declared"], so, col)
+        check_helper(ctx, h["type"], h["D"], h["seq"], h["declared"], so, col, chains=h.get("chains"), how=h.get("how", "concat"))
         return
     tkey = case["theta"]
     th = ctx.theta(tkey)
